@@ -221,8 +221,11 @@ class W3PerDocWriter(base.PerDocWriterWithColumns):
             lenfield = _lenfield(fieldname)
             lb = length_to_byte(length)
             self.add_column_value(lenfield, LENGTHS_COLUMN, lb)
-            # Add length to total field length
-            self._fieldlengths[fieldname] += length
+            # Add length to total field length (as the document's stored
+            # length byte gives it back, so that the total is the sum of the
+            # per-document lengths however the documents are spread over
+            # segments: a merge can only re-add the stored lengths)
+            self._fieldlengths[fieldname] += byte_to_length(lb)
 
     def add_vector_items(self, fieldname, fieldobj, items):
         if not items:
